@@ -120,6 +120,10 @@ Proof.
   apply apply_outs in H as (D & DY & raw & E & C & L). repeat split; auto. eauto.
 Qed.
 
+Theorem payload_exact s e h r : In (OComplete h (CResp r)) (snd (fst (step s e))) ->
+  exists raw, e = Back raw /\ classify_frame raw = FSingle (IResp r).
+Proof. intros H. exact (proj2 (proj2 (proj2 (routing_state s e h r H)))). Qed.
+
 (* ---------- fresh keys ---------- *)
 Definition not_occ (o : out) : Prop := forall h, o <> OComplete h (CErr EOccupied).
 
